@@ -95,7 +95,10 @@ def step(do, default, raises, ensures, exc_ensures):
         ensures=ensures, exc_ensures=exc_ensures,
         frame=["Params.p_has", "Params.p_val"], props=["C12"],
         assumes=["extracted block: the iteration over the stateful objects is not part of this contract",
-                 "_state_check_chain is an oracle for 'the state exists' (it only adds check_* / object type keys)",
+                 "_state_check_chain is an oracle for 'the state exists' (it only adds check_* / object type keys); the back "
+                 "end calls it makes itself through check_states (root handling by check_mode, see check_states#object_step "
+                 "and the known findings C12-root-created-before-abort / C12-root-recreated-before-abort) are not part of "
+                 "this step's call log",
                  "env is None (no vm object is passed to the back end)"])
 
 
